@@ -262,7 +262,9 @@ extern "C" int harness_main() {
     if (finding_def) verif_reach("unchecked_consumer");  // before the assertion: a concretely failing assertion ends the path
     for (int m = 1; m < NMODE; m++) {
         if (finding_def) {
-            verif_assert(ok_count[m] & ok_same[m], "C09.unchecked_input_consumer_same_stream");
+            // fails on the unchanged tree (known finding N1); `tolerate`: see notes/C09.md - the failure is reported with
+            // tolerate = 0 and the path continues with tolerate = 1 (keeps bin/check's sampled-path differential meaningful)
+            verif_assert((ok_count[m] & ok_same[m]) | verif_sbool("tolerate"), "C09.unchecked_input_consumer_same_stream");
         } else {
             verif_assert(ok_count[m], m == 1 ? "C09.depth1_same_number_of_output_ticks" : "C09.deeper_same_number_of_output_ticks");
             verif_assert(ok_same[m], m == 1 ? "C09.depth1_stream_equals_inlined" : "C09.deeper_stream_equals_inlined");
